@@ -129,6 +129,14 @@ def r15_1(ctx):
                     if bb not in set(f.reachable(ve["Some"])) - set(f.reachable(ve["None"])):
                         continue
                     flag = rvv["place"]["l"]
+                    flags_ = {flag}
+                    for _ in range(4):       # the flag may be the moved result of a helper's local (`let mut skipped = None; ..; skipped`)
+                        for fl_ in list(flags_):
+                            for d_ in f.defs.get(fl_, []):
+                                if d_[2] == "assign" and d_[3]["k"] == "use":
+                                    src_ = d_[3]["op"].get("move") or d_[3]["op"].get("copy")
+                                    if src_ is not None and not src_["p"]:
+                                        flags_.add(src_["l"])
                     for cb in prog.closures_of(f):
                         ocb = Origins(cb)
                         somes = [b_ for b_, si_, rv_ in aggregates(cb, "Option", "Some")]
@@ -142,7 +150,7 @@ def r15_1(ctx):
                                     for idx_, op_ in enumerate(st_["rv"]["ops"]):
                                         pl_ = op_.get("move") or op_.get("copy")
                                         d_ = f.single_def(pl_["l"]) if pl_ and not pl_["p"] else None
-                                        if d_ and d_[2] == "assign" and d_[3]["k"] == "ref" and d_[3]["place"]["l"] == flag:
+                                        if d_ and d_[2] == "assign" and d_[3]["k"] == "ref" and d_[3]["place"]["l"] in flags_:
                                             cap = idx_
                         if cap is None:
                             continue
@@ -200,11 +208,16 @@ def r15_1(ctx):
         if b["cleanup"]:
             continue
         for si, st_ in enumerate(b["stmts"]):
-            if st_["k"] == "assign" and st_["lhs"]["p"] and st_["lhs"]["p"][-1].get("n") == "skip_document_code" and not any("deref" in str(x) for x in st_["lhs"]["p"][:1]):
-                stores.append((bi, si, oc.rvalue(st_["rv"], at=(bi, si)), st_))
+            if st_["k"] == "assign" and st_["lhs"]["p"]:
+                # (a store through `&mut config.skip_document_code` - a generic helper that was inlined - is a store to that field)
+                names_ = [x.get("n") for x in ct.canon_place(st_["lhs"])["p"] if isinstance(x, dict) and "n" in x]
+                if names_[-1:] == ["skip_document_code"]:
+                    stores.append((bi, si, oc.rvalue(st_["rv"], at=(bi, si)), st_))
         t_ = b["term"]
-        if t_["k"] == "call" and t_["dest"]["p"] and t_["dest"]["p"][-1].get("n") == "skip_document_code":
-            stores.append((bi, "term", None, t_))
+        if t_["k"] == "call" and t_["dest"]["p"]:
+            names_ = [x.get("n") for x in ct.canon_place(t_["dest"])["p"] if isinstance(x, dict) and "n" in x]
+            if names_[-1:] == ["skip_document_code"]:
+                stores.append((bi, "term", None, t_))
     carried = False
     for bi, si, tree, st_ in stores:
         if tree is None and si != "term":
